@@ -121,8 +121,16 @@ func (w *World) canon(v ssa.Value, d int) string {
 	case *ssa.BinOp:
 		return normCmp(w.canon(x.X, d+1), x.Op, w.canon(x.Y, d+1), isConst(x.X))
 	case *ssa.Call:
+		if s, ok := w.canonForwarded(x, -1, d); ok {
+			return s
+		}
 		return w.canonCall(x.Common(), d)
 	case *ssa.Extract:
+		if c, isCall := x.Tuple.(*ssa.Call); isCall {
+			if s, ok := w.canonForwarded(c, x.Index, d); ok {
+				return s
+			}
+		}
 		return w.canon(x.Tuple, d+1) + "#" + fmt.Sprint(x.Index)
 	case *ssa.Phi:
 		if w.phiSubst != nil {
@@ -207,6 +215,113 @@ func (w *World) canon(v ssa.Value, d int) string {
 		return w.canon(x.X, d+1)
 	}
 	return fmt.Sprintf("?%T", v)
+}
+
+// forwardedCalls: fn is a package-private selector — every return hands back,
+// unchanged and complete, the results of one call made in fn (`if exec { return
+// L.GetFinality(k) }; return L.Get(k)`), and fn does nothing else. Returns those calls.
+func (w *World) forwardedCalls(fn *ssa.Function) []*ssa.Call {
+	if fn == nil || fn.Blocks == nil || !w.InModule(fn) || token.IsExported(fn.Name()) || len(fn.Blocks) < 2 || len(fn.Blocks) > 12 {
+		return nil
+	}
+	if w.fwdMemo == nil {
+		w.fwdMemo = map[*ssa.Function][]*ssa.Call{}
+	}
+	if r, ok := w.fwdMemo[fn]; ok {
+		return r
+	}
+	w.fwdMemo[fn] = nil
+	var out []*ssa.Call
+	fwd := map[*ssa.Call]bool{}
+	nres := fn.Signature.Results().Len()
+	if nres == 0 {
+		return nil
+	}
+	for _, b := range fn.Blocks {
+		ret, ok := lastInstr(b).(*ssa.Return)
+		if !ok {
+			if _, isP := lastInstr(b).(*ssa.Panic); isP {
+				return nil
+			}
+			continue
+		}
+		var call *ssa.Call
+		for i, rv := range ret.Results {
+			var c *ssa.Call
+			switch y := rv.(type) {
+			case *ssa.Call:
+				if nres == 1 {
+					c = y
+				}
+			case *ssa.Extract:
+				if cc, isC := y.Tuple.(*ssa.Call); isC && y.Index == i {
+					c = cc
+				}
+			}
+			if c == nil || (call != nil && c != call) || c.Block() != b {
+				return nil
+			}
+			call = c
+		}
+		if call == nil || fwd[call] {
+			return nil
+		}
+		fwd[call] = true
+		out = append(out, call)
+	}
+	// nothing else happens in fn
+	for _, b := range fn.Blocks {
+		for _, in := range b.Instrs {
+			switch x := in.(type) {
+			case *ssa.Call:
+				if !fwd[x] {
+					return nil
+				}
+			case *ssa.Store, *ssa.MapUpdate, *ssa.Go, *ssa.Defer, *ssa.Send, *ssa.RunDefers, *ssa.Phi:
+				return nil
+			}
+		}
+	}
+	if len(out) < 2 {
+		return nil
+	}
+	w.fwdMemo[fn] = out
+	return out
+}
+
+// canonForwarded prints the result of a selector call as the join of what it forwards.
+func (w *World) canonForwarded(c *ssa.Call, idx int, d int) (string, bool) {
+	fn := c.Common().StaticCallee()
+	if fn == nil || len(w.inlineEnv) >= 3 {
+		return "", false
+	}
+	fw := w.forwardedCalls(fn)
+	if fw == nil || len(fn.Params) != len(c.Common().Args) {
+		return "", false
+	}
+	env := map[*ssa.Parameter]string{}
+	for i, p := range fn.Params {
+		env[p] = w.canon(c.Common().Args[i], d+1)
+	}
+	w.inlineEnv = append(w.inlineEnv, env)
+	set := map[string]bool{}
+	for _, f := range fw {
+		s := w.canonCall(f.Common(), d+1)
+		if idx >= 0 {
+			s += "#" + fmt.Sprint(idx)
+		}
+		set[s] = true
+	}
+	w.inlineEnv = w.inlineEnv[:len(w.inlineEnv)-1]
+	var ss []string
+	for s := range set {
+		ss = append(ss, s)
+	}
+	sort.Strings(ss)
+	if len(ss) == 1 {
+		return ss[0], true
+	}
+	return "phi(" + strings.Join(ss, "|") + ")", true
 }
 
 // CanonI renders v with calls of simple pure module helpers replaced by the
